@@ -155,18 +155,34 @@ def mc_vectors(run, cfg, module="CelEvalMC", trace_module="CelEvalTrace", worker
 
 
 def replay(prop, path):
-    """Re-run a stored violation against the current tree."""
+    """Re-run a stored violation against the current tree and validate it again."""
     d = json.load(open(path))
     case = d["case"]
     run = Run(prop, "quick", d.get("seed", 1))
-    fam = case.get("ev", "case")
+    run.rule = "replay of one stored case"
     tmp = run.work("replay_in.json")
     json.dump(case, open(tmp, "w"))
     out = run.work("replay_out.ndjson")
     celconf(["replay-case", "--case", tmp, "--out", out])
-    module = REPLAY_MODULE.get(case.get("fam", "eval"), "CelEvalTrace")
-    validate_trace(run, module, out)
-    return run.finish()
+    if "refs" in case:
+        module = "CelRefsTrace"
+    elif "ops" in case and "obs" in case:
+        module = "CelContextTrace"
+    elif case.get("op") in ("ser", "serjson", "json"):
+        module = "CelDataTrace"
+    elif "op" in case and "a" in case:
+        module = "CelOpTrace"
+    elif "kind" in case:
+        module = "CelParseTrace"
+    elif "n" in case and "ia" in case:
+        module = "CelCmpLaws"
+    else:
+        module = "CelEvalTrace"
+    if module == "CelCmpLaws":
+        print("this record is one row of the observed relation table; run the full check to re-evaluate it")
+        return 0
+    validate_trace(run, module, out, jobs=1)
+    return run.finish(write_evidence=False)
 
 
 REPLAY_MODULE = {"eval": "CelEvalTrace"}
